@@ -117,6 +117,12 @@ OuterLoop:
 					}
 					tmpMem += t.RequireBytes(10)
 					arg = float64(f)
+					if math.IsInf(f, 0) || math.IsNaN(f) {
+						// Go spells those +Inf, -Inf and NaN
+						tmpMem += t.RequireBytes(length)
+						arg = pad(formatNonFinite(f, format[i], flags), length, flags.minus)
+						setStringVerb(outFormat[start : i+1])
+					}
 					break ArgLoop
 				case 's':
 					if len(args) <= j {
@@ -322,6 +328,28 @@ func formatInt(n int64, verb byte, flags fmtFlags, width, prec int, hasPrec bool
 		prefix, digits = strings.ToUpper(prefix), strings.ToUpper(digits)
 	}
 	return pad(prefix+digits, width, flags.minus)
+}
+
+// formatNonFinite formats x, which must be an infinity or NaN, as C's printf
+// does for the given verb: inf or nan with a sign if required, in upper case if
+// the verb is.
+func formatNonFinite(x float64, verb byte, flags fmtFlags) string {
+	s := "inf"
+	if math.IsNaN(x) {
+		s = "nan"
+	}
+	if verb >= 'A' && verb <= 'Z' {
+		s = strings.ToUpper(s)
+	}
+	switch {
+	case x < 0:
+		return "-" + s
+	case flags.plus:
+		return "+" + s
+	case flags.space:
+		return " " + s
+	}
+	return s
 }
 
 // Quote returns a string representing the value as a valid Lua literal if
